@@ -256,6 +256,13 @@ pub fn json_roundtrip(store: &AnnotationStore, compact: bool) -> Option<RoundTri
         Ok(Err(e)) => return Some(RoundTripFail { symptom: format!("reserialise-err:{}", err_class(&e)), detail: format!("{}", e) }),
         Err(p) => return Some(RoundTripFail { symptom: format!("reserialise-panic:{}", msg_class(&p)), detail: String::new() }),
     }
+    // the reloaded store is a store like any other: reverse lookups agree with forward references, nothing dangles, every
+    // public id resolves to the item that carries it (once per state: the two layouts load into the same store)
+    if !compact {
+        if let Some(what) = crate::c19::consistency(&re) {
+            return Some(RoundTripFail { symptom: format!("reloaded-store-inconsistent:{}", what), detail: format!("document: {}", json.chars().take(1500).collect::<String>()) });
+        }
+    }
     None
 }
 
